@@ -4,7 +4,7 @@ from __future__ import annotations
 import numpy as np
 
 from .. import ops, state
-from ..common import CAP, hx, key_family, rand_key, run_cases, sk, unhx
+from ..common import pick, CAP, hx, key_family, rand_key, run_cases, sk, unhx
 
 ID = "C05"
 LEVEL = "exploration"
@@ -39,11 +39,11 @@ def gen_case(rng, ctx, kind=None):
     d = int(rng.integers(1, 7))
     cfg = {"kind": kind, "width": w, "depth": d}
     if kind == "log16":
-        cfg["max_count"] = int(rng.choice([70000, 10**5, 10**6, 2**32 - 1]))
-        cfg["num_reserved"] = int(rng.choice([0, 1, 5, 100, 1023]))
+        cfg["max_count"] = pick(rng, [70000, 10**5, 10**6, 2**32 - 1])
+        cfg["num_reserved"] = pick(rng, [0, 1, 5, 100, 1023])
     elif kind == "log8":
-        cfg["max_count"] = int(rng.choice([300, 1000, 5000, 10**6, 2**32 - 1]))
-        cfg["num_reserved"] = int(rng.choice([0, 1, 5, 15, 60]))
+        cfg["max_count"] = pick(rng, [300, 1000, 5000, 10**6, 2**32 - 1])
+        cfg["num_reserved"] = pick(rng, [0, 1, 5, 15, 60])
     keys = key_family(rng, int(rng.integers(2, 10)), 0, 10)
     n_ev = int(rng.integers(5, 50))
     events = []
@@ -56,10 +56,10 @@ def gen_case(rng, ctx, kind=None):
             k = keys[int(rng.integers(0, len(keys)))]
             if kind == "linear":
                 r2 = rng.random()
-                v = int(rng.choice([0, 1, 2, 3, 10, 1000])) if r2 < 0.7 else int(rng.choice([CAP - 3, CAP - 1, CAP, CAP + 1, 2**32 + 7, 2**40, 2**31]))
+                v = pick(rng, [0, 1, 2, 3, 10, 1000]) if r2 < 0.7 else pick(rng, [CAP - 3, CAP - 1, CAP, CAP + 1, 2**32 + 7, 2**40, 2**31])
             else:
                 r2 = rng.random()
-                v = int(rng.choice([0, 1, 1, 2, 3, 7])) if r2 < 0.7 else int(rng.integers(8, 5001 if kind == "log16" or cfg["max_count"] <= 5000 else 600))
+                v = pick(rng, [0, 1, 1, 2, 3, 7]) if r2 < 0.7 else int(rng.integers(8, 5001 if kind == "log16" or cfg["max_count"] <= 5000 else 600))
             events.append([int(rng.integers(0, 2)), ["add", hx(k), v]])
     strangers = [hx(rand_key(rng, 0, 6)) for _ in range(3)]
     return {"cfg": cfg, "events": events, "strangers": strangers}
